@@ -131,6 +131,20 @@ theorem fff_pth_scans_same_as_quantile :
     Kern.FffVec.scanUpStepIv = Kern.Quantile.scanUpStepEl ∧ Kern.FffVec.scanDownStepIv = Kern.Quantile.scanDownStepEl :=
   ⟨rfl, rfl, rfl, rfl, rfl, rfl, rfl, rfl⟩
 
+/-- **the stores of a pass are inside the window too**: `SWAP(*bufl, *bufr)` after the scans (taken when
+    `i < j`) touches two cells of `[il, jr]`, and the same-extremities escape swaps `x[il]` with `x[jr - 1]`,
+    both inside the window — so a pass neither reads nor writes outside `[il, jr] ⊆ [0, size)`. -/
+theorem pth_pass_swaps_in_window (a : Rat) (il jr : Nat) (same : Bool) (x0 x : Array Rat) (i j : Nat)
+    (inv : PInv a il jr same x0 x i j) :
+    (scanUp x a x.size i < scanDown x a x.size j →
+      il < scanUp x a x.size i ∧ scanUp x a x.size i ≤ jr ∧
+      il ≤ scanDown x a x.size j ∧ scanDown x a x.size j ≤ jr) ∧
+    il ≤ jr - 1 ∧ jr - 1 < x.size := by
+  obtain ⟨_, _, h3, h4, h5, h6, h7⟩ := pth_pass_scans_in_window a il jr same x0 x i j inv
+  obtain ⟨hu1, _, _⟩ := scanUp_spec x a x.size i
+  have hlt := inv.hlt
+  refine ⟨fun _ => ⟨by omega, h4, h5, h6⟩, by omega, by omega⟩
+
 /-- the hypotheses are satisfiable and the sentinel matters: on `[3, 1, 2]` with pivot `x[0]` the raw
     upward scan from 1 without a sentinel would run off the end (`false`), with the window ordered it does not -/
 example : (scanUpRaw #[3, 1, 2] 3 3 1).2 = false ∧ (scanUpRaw #[2, 1, 3] 2 3 1) = (2, true) := by
